@@ -1,6 +1,6 @@
 (* Props/C03.v — property C03: validate / safeParse / parse agree; parsed data is a faithful projection.
    Statements only; proofs in Proofs/C03.v. *)
-From Beff Require Import Model.Known Model.RuntimeSpec Proofs.C03.
+From Beff Require Import Model.Known Model.RuntimeSpec Proofs.C03 Proofs.C03Data.
 
 Definition no_formats : formats := {| sfmt := fun _ => None; nfmt := fun _ => None |}.
 
@@ -64,6 +64,29 @@ Proof.
   vm_compute in H. specialize (H eq_refl). discriminate H.
 Qed.
 
+(* ---- what holds: on validator trees without unions, intersections, discriminated dispatch and index signatures, with distinct
+        property names none of which is an Object.prototype member (`dfrag`), and for inputs without typed arrays (listed
+        finding inherited_length_satisfies_declared_property): the data safeParse returns is accepted by the same validator
+        under every option, in particular under the same options and with undeclared keys disallowed — it consists of
+        declared parts only.  Every environment of such trees, every value, both key orders, all fuels. ---- *)
+Theorem C03_data_is_accepted_again_except_known :
+  forall F env, dfrag_env env = true ->
+  forall f strict order r v d s',
+    dfrag r = true -> no_typed v = true ->
+    safe_parse F env f strict order r v = Ok (PSuccess d) ->
+    validate F env f s' r d = Ok true.
+Proof.
+  intros F env He f strict order r v d s' Hd Hn H.
+  destruct (proj1 (C03_safeParse_success_iff_validate F env f strict order r v d) H) as [Hv Hp].
+  exact (parse_revalidates F env He f strict order r v d s' Hd Hn Hv Hp).
+Qed.
+
+(* the typed-array finding on the model: {length: number} accepts a Uint8Array and the returned {} is rejected *)
+Theorem C03_refuted_for_typed_arrays :
+  exists d, safe_parse no_formats [] 10 false OrderInput (RObject [("length", RTypeof TyNumber)] []) (VTyped Uint8Array [1; 2; 3]%Z) = Ok (PSuccess d) /\
+            validate no_formats [] 10 false (RObject [("length", RTypeof TyNumber)] []) d = Ok false.
+Proof. eexists. split; vm_compute; reflexivity. Qed.
+
 (* non-vacuity: a recursive named type, an index signature, a union: all three agree and the data projects *)
 Definition c03_ex_env : renv := [("T", RObject [("v", RTypeof TyNumber); ("next", ROptional (RRef "T"))] [])].
 Definition c03_ex_rt : rt :=
@@ -85,3 +108,5 @@ Print Assumptions C03_parse_returns_iff_safeParse_succeeds.
 Print Assumptions C03_validate_never_throws_except_known.
 Print Assumptions C03_refuted_validate_throws.
 Print Assumptions C03_refuted_projection.
+Print Assumptions C03_data_is_accepted_again_except_known.
+Print Assumptions C03_refuted_for_typed_arrays.
